@@ -64,8 +64,11 @@ type TrackPool struct {
 	Events  []PoolEvent
 	Faults  []string
 	NoReuse bool // never hand buffers back (forces allocation path)
-	held    map[int]int
-	nev     map[int]int
+	// PutDelay, if set, runs at the start of every Put, outside the pool's lock (an application
+	// pool may be slow; it widens whatever window the library leaves around returning a buffer)
+	PutDelay func()
+	held     map[int]int
+	nev      map[int]int
 }
 
 func (p *TrackPool) note(conn, delta int) {
@@ -110,6 +113,9 @@ func (f *poolFront) Get() interface{} {
 
 func (f *poolFront) Put(v interface{}) {
 	p := f.p
+	if p.PutDelay != nil {
+		p.PutDelay()
+	}
 	p.mu.Lock()
 	defer p.mu.Unlock()
 	buf, ok := ws.VerifPoolBuf(v)
@@ -507,22 +513,23 @@ type StepResult struct {
 
 // Writer executes write programs against a Conn.
 type Writer struct {
-	C           *ws.Conn
-	Cfg         Cfg
-	Sent        []Sent
-	Results     []StepResult
-	open        io.WriteCloser
-	openIdx     int // index in Sent of the message whose writer is open
-	enabled     bool
-	Base        time.Time
-	AfterOp     func(step int, call string) // hook between calls (C09/C10 use it)
-	StopOnEr    bool
-	NC          *xport.Conn // when set, calls are bracketed with transport counters
-	Calls       []Call
-	CurDL       time.Time // deadline last given to SetWriteDeadline
-	pending     Call
-	OnCall      func(Call) // invoked right after every API call returns
-	pendingOpen bool       // a NextWriter step is between its parts (the writer is open but not yet registered)
+	OversizeStreamed int // invalid requests "control payload over 125 bytes streamed into a NextWriter"
+	C                *ws.Conn
+	Cfg              Cfg
+	Sent             []Sent
+	Results          []StepResult
+	open             io.WriteCloser
+	openIdx          int // index in Sent of the message whose writer is open
+	enabled          bool
+	Base             time.Time
+	AfterOp          func(step int, call string) // hook between calls (C09/C10 use it)
+	StopOnEr         bool
+	NC               *xport.Conn // when set, calls are bracketed with transport counters
+	Calls            []Call
+	CurDL            time.Time // deadline last given to SetWriteDeadline
+	pending          Call
+	OnCall           func(Call) // invoked right after every API call returns
+	pendingOpen      bool       // a NextWriter step is between its parts (the writer is open but not yet registered)
 }
 
 func (w *Writer) begin(step int, name string) {
@@ -761,7 +768,7 @@ var big126 = bytes.Repeat([]byte{'x'}, 126)
 var big700 = bytes.Repeat([]byte{'y'}, 700)
 
 // Invalid requests (C10). Each must fail and write nothing.
-const nInvalid = 10
+const nInvalid = 12
 
 // doInvalid issues one invalid request; every call marked Invalid must fail.
 func (w *Writer) doInvalid(i int, s WStep, res *StepResult) {
@@ -796,6 +803,21 @@ func (w *Writer) doInvalid(i int, s WStep, res *StepResult) {
 		var wr io.WriteCloser
 		if call("NextWriter", false, func() error { var e error; wr, e = c.NextWriter(9 + i%2); return e }) == nil {
 			call("Write", false, func() error { _, e := wr.Write(big700); return e })
+			call("Close", true, wr.Close)
+		}
+	case 10, 11:
+		// a control message of 126-205 bytes streamed into the writer: it fits the write buffer, so
+		// only the 125-byte rule refuses it
+		w.implicitClosed()
+		var wr io.WriteCloser
+		w.OversizeStreamed++
+		if call("NextWriter", false, func() error { var e error; wr, e = c.NextWriter(8 + i%3); return e }) == nil {
+			p := big700[:126+(i*7)%80]
+			if s.Invalid == 10 {
+				call("ReadFrom", false, func() error { _, e := io.Copy(wr, onlyReader{bytes.NewReader(p)}); return e })
+			} else {
+				call("WriteString", false, func() error { _, e := io.WriteString(wr, string(p)); return e })
+			}
 			call("Close", true, wr.Close)
 		}
 	}
